@@ -640,6 +640,13 @@ class Interp:
             msg = ""
             if node.args and isinstance(node.args[0], ast.Constant):
                 msg = str(node.args[0].value)
+            elif node.args:
+                try:
+                    v = self.eval(node.args[0], frame)
+                    if isinstance(v, str):
+                        msg = v
+                except Exception:  # the message is informational only
+                    pass
             return name, msg
         return ast.unparse(node), ""
 
